@@ -277,6 +277,33 @@ func runC15(c *Ctx) {
 			R.Decide(good, rule, fi.Name, "predicate", c.pos(fi), "hand-written bisection of sort.Search over len(slice): the first position whose element is not before the target", whyB)
 			continue
 		}
+		// an assertion on sort.Search's result being inside [0, n] (its contract) cannot fire: such panic paths are set aside
+		{
+			var rest []*Path
+			for _, p := range ps {
+				drop := false
+				if p.End == EndPanic && len(p.Conds) > 0 {
+					last := p.Conds[len(p.Conds)-1].Rel()
+					if pl, kind, isInt := last.IntNorm(); isInt && kind == ">" {
+						for _, at := range pl.Atoms {
+							if at.Op != "call" || at.Sym != "sort.Search" || len(at.Args) < 1 {
+								continue
+							}
+							S, N := polyAtom(at), ToPoly(at.Args[0])
+							if pl.Equal(polyConst(0).Add(S, -1)) || pl.Equal(S.Add(N, -1)) {
+								drop = true
+							}
+						}
+					}
+				}
+				if !drop {
+					rest = append(rest, p)
+				}
+			}
+			if len(rest) > 0 {
+				ps = rest
+			}
+		}
 		if len(ps) != 1 {
 			R.Unproven(rule, fi.Name, "predicate", c.pos(fi), fmt.Sprintf("%d paths; expected the single delegation to sort.Search (an extra fast path must be shown to return the lower bound, which these rules cannot do)", len(ps)))
 			continue
